@@ -41,10 +41,18 @@ impl Scheduler {
     }
 
     pub async fn next(self: &Arc<Self>) -> bool {
+        #[cfg(acts_verif)]
+        crate::verif::gate_wait().await;
         if let Some(signal) = self.queue.next().await {
+            #[cfg(acts_verif)]
+            crate::verif::gate_wait().await;
             debug!("next: {:?}", signal);
             match signal {
                 Signal::Task(task) => {
+                    #[cfg(acts_verif)]
+                    let _verif_unit = crate::verif::InFlight;
+                    #[cfg(acts_verif)]
+                    crate::verif::log(format!("X {} {}", task.pid, task.id));
                     let ctx = &task.create_context();
                     task.exec(ctx).unwrap_or_else(|err| {
                         eprintln!("error: {err}");
@@ -53,6 +61,8 @@ impl Scheduler {
                     });
                 }
                 Signal::Terminal => {
+                    #[cfg(acts_verif)]
+                    crate::verif::dec();
                     *self.closed.lock().unwrap() = true;
                     return false;
                 }
